@@ -317,7 +317,7 @@ def gen_redef_pair(rng):
     seps = [' ' if (i == 0 or rng.random() < 0.6 or needs_space(body[i - 1], body[i])) else '' for i in range(len(body))]
     lead = ' '
     first = render(ps, var, body, seps, lead)
-    kind = rng.choice(['same', 'ws-amount', 'ws-presence', 'token', 'param-name', 'kind', 'count', 'lead'])
+    kind = rng.choice(['same', 'ws-amount', 'ws-presence', 'token', 'param-name', 'kind', 'count', 'lead', 'lead'])
     ps2, body2, seps2, lead2 = (list(ps) if ps is not None else None), list(body), list(seps), lead
     expect = 'ok'
     if kind == 'ws-amount':
@@ -325,7 +325,12 @@ def gen_redef_pair(rng):
         seps2 = [(rng.choice([' /* x */ ', '/* x */', '/**/']) if (s and rng.random() < 0.3 and i > 0 and not body[i - 1].endswith('/')) else s)
                  for i, s in enumerate(seps2)]
     elif kind == 'lead':
-        lead2 = '   \t '
+        # white space before the replacement list is not part of it (6.10.3p7): any amount, and for a function-like macro
+        # also none at all (`#define NEG(x)-(x)` against `#define NEG(x) -(x)`), in either order
+        lead2 = rng.choice(['   \t ', '' if ps is not None else ' /**/ ', '' if ps is not None else '\t'])
+        if rng.random() < 0.5 and not (ps is None and not lead2):
+            first = render(ps, var, body, seps, lead2)
+            lead2 = lead
     elif kind == 'ws-presence':
         idx = [i for i in range(1, len(body)) if not needs_space(body[i - 1], body[i])]
         if idx:
